@@ -189,12 +189,14 @@ def check_case(case):
                     if l["kind"] == "empty":
                         continue
                     # like the C# client: one ReadLine per request (bounded; the verdict is taken after exit)
-                    t_end = min(deadline, time.time() + 30)
+                    t_end = min(deadline, time.time() + 60)
                     needed = sum(1 for x in case["lines"][: k + 1] if x["kind"] not in ("empty", "exit"))
                     while buf.count(b"\n") < needed:
                         left = t_end - time.time()
                         if left <= 0:
+                            # the client's own patience ran out (loaded machine): the session says nothing
                             stopped = True
+                            cnt["sessions_timed_out"] = 1
                             break
                         rr, _, _ = select.select([fd], [], [], min(left, 1.0))
                         if rr:
